@@ -86,6 +86,10 @@ def tree_scopes(tier, updates=1, ro=1, fill=1, growth=True, logs=True, rnd=True)
             S("tree", type="T32u64u64", mode="random", slots=24, cap=24, max_slots=40, keys=keys(60), histories=150, length=300, fill=fill),
             S("tree", type="T8u32u16", mode="random", slots=40, cap=40, max_slots=64, keys=keys(90), histories=100, length=400, fill=fill),
             S("tree", type="T32logu8", mode="random", slots=64, cap=64, keys=keys(120, 1), histories=60, length=600, fill=0),
+            # records with padding (1-byte key before an 8-byte value; 22 bytes of fields in a 24-byte record) growing past
+            # the sizes at which unpadded and padded record arithmetic part ways
+            S("tree", type="T32u8u64", mode="random", slots=5, cap=5, max_slots=14, keys=keys(24), histories=80, length=150, fill=fill),
+            S("tree", type="T32u32u16", mode="random", slots=10, cap=10, max_slots=30, keys=keys(50), histories=60, length=250, fill=fill),
             # hundreds of entries: heights up to 10-12, long free lists, growth by many records
             S("tree", type="T32u64u64", mode="random", slots=500, cap=500, max_slots=900, keys=keys(1500), histories=2, length=9000, checkpoint=150, fill=fill, fresh_base=100000),
             S("tree", type="T8u32u16", mode="random", slots=120, cap=120, max_slots=255, keys=keys(400), histories=3, length=4000, checkpoint=80, fill=fill, fresh_base=100000),
